@@ -44,11 +44,13 @@ struct VolImage {
 };
 
 // Encode members in the order given (callers sort with nameCompare for a conforming archive).
-inline VolImage encodeVol(const std::vector<VolMember>& ms, uint32_t spareSlots = 0) {
+// surplusNames: further NUL-terminated strings in the name table that no valid index entry refers to (names of unused slots)
+inline VolImage encodeVol(const std::vector<VolMember>& ms, uint32_t spareSlots = 0, const std::vector<std::string>& surplusNames = {}) {
 	VolImage im;
 	std::vector<uint8_t>& b = im.bytes;
 	uint32_t T = 0;
 	for (auto& m : ms) T += static_cast<uint32_t>(m.name.size()) + 1;
+	for (auto& n : surplusNames) T += static_cast<uint32_t>(n.size()) + 1;
 	uint32_t S = pad4(4 + T);
 	uint32_t n = static_cast<uint32_t>(ms.size());
 	uint32_t L = 14 * (n + spareSlots);
@@ -64,6 +66,7 @@ inline VolImage encodeVol(const std::vector<VolMember>& ms, uint32_t spareSlots 
 	std::vector<uint32_t> nameOff;
 	uint32_t o = 0;
 	for (auto& m : ms) { nameOff.push_back(o); b.insert(b.end(), m.name.begin(), m.name.end()); b.push_back(0); o += static_cast<uint32_t>(m.name.size()) + 1; }
+	for (auto& n : surplusNames) { b.insert(b.end(), n.begin(), n.end()); b.push_back(0); }
 	while (b.size() < 24 + S) b.push_back(0);
 	field("voli.tag", 4); putTag(b, "voli");
 	field("voli.len", 4); putU32(b, L | 0x80000000u);
